@@ -1,4 +1,5 @@
 import XsgModel.Proofs.Sort
+import XsgModel.Proofs.FirstAppearance
 import XsgModel.Props.C03
 /-!
 # C09 — field order follows the document, or the XML name when sorting is requested
@@ -97,6 +98,33 @@ theorem C09_attr_first_appearance (d : Doc) (ds : List Doc) (h : historyOk (d ::
         names c.attrs = dedupNames ((((d :: ds).map (·.root)).flatMap (Node.named k)).flatMap Node.attrs) := by
   obtain ⟨t, ht, hm⟩ := C03_exact d ds h
   exact ⟨t, ht, hm.attrs, fun k nec c hc => (hm.hsub k nec c hc).attrs⟩
+
+/-- parser level, children: at every position of the tree the child named by the `i`-th entry of the
+first-appearance order of its occurrences (`orderOf`: stream order over all documents, first document first)
+is stored with `position = i` -/
+theorem C09_child_positions {t : Elem} {occs : List Node} (h : Matches t occs) :
+    ∀ i k, (orderOf occs)[i]? = some k → ∃ nec c, getChild t.children k = some (nec, c) ∧ c.position = some i := h.hpos
+
+/-- hence, with the default unsorted option, the child fields of every struct are in order of first appearance -/
+theorem C09_children_first_appearance {t : Elem} {occs : List Node} (h : Matches t occs) (o : Options) (ho : o.sort = .unsorted) :
+    (sortedChildren o t).map (·.2.name) = orderOf occs :=
+  sorted_children_names t (orderOf occs) h.nodup h.posInv o ho
+
+/-- the whole statement for histories: after `into_struct` + `extend_struct`s the root (and by `C03_nested` every
+nested position) lists attributes and children in order of first appearance in the supplied documents -/
+theorem C09_first_appearance (d : Doc) (ds : List Doc) (h : historyOk (d :: ds)) (o : Options) (ho : o.sort = .unsorted) :
+    ∃ t, parseHistory ((d :: ds).map Doc.events) = .ok t ∧
+      (sortedAttrs o t).map (·.2) = dedupNames (((d :: ds).map (·.root)).flatMap Node.attrs) ∧
+      (sortedChildren o t).map (·.2.name) = orderOf ((d :: ds).map (·.root)) ∧
+      ∀ k nec c, getChild t.children k = some (nec, c) →
+        (sortedAttrs o c).map (·.2) = dedupNames ((((d :: ds).map (·.root)).flatMap (Node.named k)).flatMap Node.attrs) ∧
+        (sortedChildren o c).map (·.2.name) = orderOf (((d :: ds).map (·.root)).flatMap (Node.named k)) := by
+  obtain ⟨t, ht, hm⟩ := C03_exact d ds h
+  refine ⟨t, ht, ?_, C09_children_first_appearance hm o ho, ?_⟩
+  · rw [C09_unsorted_attrs o t ho]; exact hm.attrs
+  · intro k nec c hc
+    have hsub := hm.hsub k nec c hc
+    exact ⟨by rw [C09_unsorted_attrs o c ho]; exact hsub.attrs, C09_children_first_appearance hsub o ho⟩
 
 /-- parser level: a child that is new under its parent gets the next free position (= number of children
 seen so far); a child that is already stored keeps its position -/
